@@ -43,28 +43,53 @@ def run(ctx: Context) -> None:
         rets = [r for r in own_nodes(wf.node) if isinstance(r, ast.Return) and r.value is not None]
         ralts = sorted({norm(a) for r in rets for a in ctx.prov.expand(r.value, wf, r)})
         rep.ob("C13.R1", fkey(tree, wf, "flow-definition"), ralts == [WINDOW], where(wf), f"_wait_for_outgoing_flow returns {ralts}" + ("" if ralts == [WINDOW] else f"; must be {WINDOW}"))
-        # R3
+        # R3  (canonical form of the wait routine: `while True: <re-read window, frame size, flow>; if <credit>: break; await events`
+        #      - whatever the source looked like: priming computation + `while flow <= 0`, flag loop, `return` inside the loop ...)
+        from ..norm import canon_atom
+
         wl = [l for l in loops_of(wf) if isinstance(l, ast.While)]
         rep.floor("C13.R3", f"flow wait loop ({tree})", len(wl), 1)
         for l in wl:
-            tt = {v: peval(l.test, {"flow": v}) for v in (0, 1, 16384)}
-            exits = [x for x in ast.walk(l) if isinstance(x, (ast.Break, ast.Return))]
-            reads = [s for s in l.body if node_has_call(s, "_receive_events")]
-            after = l.body[l.body.index(reads[0]) + 1:] if reads else []
-            rebound = {norm(s.targets[0]): norm(s.value) for s in after if isinstance(s, ast.Assign)}
-            ok = tt == {0: True, 1: False, 16384: False} and not exits and bool(reads) and \
-                rebound.get("local_flow") == "self._h2_state.local_flow_control_window(stream_id)" and rebound.get("max_frame_size") == "self._h2_state.max_outbound_frame_size" \
-                and rebound.get("flow") == "min(local_flow,max_frame_size)"
-            rep.ob("C13.R3", fkey(tree, wf, "wait-loop"), ok, where(wf, l),
-                   "waits while there is no credit (true at 0, false at 1 and 16384) and re-reads window and frame size after every event read" if ok else f"wait loop: test over flow {tt}, exits {len(exits)}, re-reads {rebound}")
-            # RFC 9113 6.9.2: a SETTINGS_INITIAL_WINDOW_SIZE decrease can make the window NEGATIVE; the sender must keep waiting
-            neg = {v: peval(l.test, {"flow": v}) for v in (-1, -64535)}
-            okn = all(r is not UNKNOWN and bool(r) for r in neg.values())
-            rep.ob("C13.R3", fkey(tree, wf, "wait-loop-negative-window"), okn, where(wf, l),
-                   "the wait loop also waits while the window is negative" if okn else
-                   f"wait loop `while {ast.unparse(l.test)}` ends when the window is negative ({neg}): after a SETTINGS_INITIAL_WINDOW_SIZE decrease the returned flow is < 0, "
-                   "`data[:min(len(data), flow)]` is then larger than the window and h2 refuses the send - the upload fails instead of resuming when the window reopens")
-            evc = [c for s in reads for c in ast.walk(s) if isinstance(c, ast.Call) and norm(c.func) == "self._receive_events"]
+            brks = [x for x in ast.walk(l) if isinstance(x, ast.Break)]
+            rets_in = [x for x in ast.walk(l) if isinstance(x, ast.Return)]
+            tests = []
+            if isinstance(l.test, ast.Constant) and l.test.value is True and len(brks) == 1 and not rets_in:
+                p_ = parent(brks[0])
+                if isinstance(p_, ast.If) and p_.body == [brks[0]] and not p_.orelse and parent(p_) is l:
+                    tests = [(p_.test, True, p_)]
+            elif not brks and not rets_in:
+                tests = [(l.test, False, None)]           # a plain `while <no credit>:` loop that was not rotated
+            ok = False
+            detail = f"wait loop has {len(brks)} break(s), {len(rets_in)} return(s) inside: not the single-exit wait"
+            if tests:
+                t, pol, ifnode = tests[0]
+                tt = {v: peval(t, {"flow": v}) for v in (-64535, -1, 0, 1, 16384)}
+                leaves = {v: (r if r is UNKNOWN else bool(r) == pol) for v, r in tt.items()}
+                table_ok = leaves == {-64535: False, -1: False, 0: False, 1: True, 16384: True}
+                # the statements executed before the exit test in every iteration re-read window and frame size
+                before = l.body[:l.body.index(ifnode)] if ifnode is not None else []
+                after_read = []
+                reads = [s_ for s_ in l.body if node_has_call(s_, "_receive_events")]
+                if ifnode is None and reads:
+                    after_read = l.body[l.body.index(reads[0]) + 1:]
+                seq = before if ifnode is not None else after_read
+                rebound = {}
+                for s_ in seq:
+                    if isinstance(s_, ast.Assign):
+                        rebound[norm(s_.targets[0])] = norm(s_.value)
+                    elif isinstance(s_, ast.AnnAssign) and s_.value is not None:
+                        rebound[norm(s_.target)] = norm(s_.value)
+                fresh = rebound.get("local_flow") == "self._h2_state.local_flow_control_window(stream_id)" and rebound.get("max_frame_size") == "self._h2_state.max_outbound_frame_size" \
+                    and rebound.get("flow") == "min(local_flow,max_frame_size)"
+                other_exits = [x for x in ast.walk(l) if isinstance(x, (ast.Continue,))]
+                ok = table_ok and fresh and bool(reads) and not other_exits
+                detail = ("waits while there is no credit - also while the window is negative (exit test true exactly for flow > 0 over -64535, -1, 0, 1, 16384) - and re-reads window and "
+                          "frame size before every test") if ok else f"wait loop: leaves for flow {leaves}; re-reads before the test {rebound}; event reads {len(reads)}"
+                if not table_ok and all(leaves.get(v) for v in (-64535, -1)):
+                    detail += (" - the loop ends when the window is negative: after a SETTINGS_INITIAL_WINDOW_SIZE decrease the returned flow is < 0, `data[:min(len(data), flow)]` is then "
+                               "larger than the window and h2 refuses the send - the upload fails instead of resuming when the window reopens")
+            rep.ob("C13.R3", fkey(tree, wf, "wait-loop"), ok, where(wf, l), detail)
+            evc = [c for s_ in l.body for c in ast.walk(s_) if isinstance(c, ast.Call) and norm(c.func) == "self._receive_events"]
             rep.ob("C13.R3", fkey(tree, wf, "blocking-read"), bool(evc) and all([norm(a) for a in c.args] == ["request"] and not c.keywords for c in evc), where(wf, l),
                    "the wait reads from the network without a stream id (blocks until new frames arrive even when events are pending)")
         # R2
